@@ -106,12 +106,21 @@ structure Sci where
 def expStr (e : Int) : Str :=
   (if e < 0 then '-' else '+') :: (let a := natToDec e.natAbs; if a.length < 2 then '0' :: a else a)
 
+/-- mantissa digits `D.DDDD` (no point when `d = 0`) -/
+def manDigits (d : Nat) (man : Nat) : Str :=
+  natToDec (man / 10 ^ d) ++ (if d = 0 then [] else '.' :: digitsW d (man % 10 ^ d))
+
+/-- scientific text with exponent marker `c` (`'E'`, `'e'`, or the Fortran `'D'`) -/
+def sciCoreC (sp : Bool) (c : Char) (d : Nat) (x : Sci) : Str :=
+  signStr sp x.neg ++ (manDigits d x.man ++ c :: expStr x.exp)
+
 /-- the text of `{:.dE}` (`up`) / `{:.de}` -/
-def sciCore (sp up : Bool) (d : Nat) (x : Sci) : Str :=
-  signStr sp x.neg ++ natToDec (x.man / 10 ^ d) ++ (if d = 0 then [] else '.' :: digitsW d (x.man % 10 ^ d))
-    ++ (if up then 'E' else 'e') :: expStr x.exp
+def sciCore (sp up : Bool) (d : Nat) (x : Sci) : Str := sciCoreC sp (if up then 'E' else 'e') d x
 
 def fmtSci (sp up : Bool) (w d : Nat) (x : Sci) : Str := rjust w (sciCore sp up d x)
+
+/-- `s.replace("D", "E")` (readers of Fortran output) -/
+def replaceD (s : Str) : Str := s.map fun c => if c == 'D' then 'E' else c
 
 /-- `float(s)` for `[sign]D.DDDD(E|e)[sign]XX` text, kept syntactically (mantissa with `d` decimals);
 `none` when Python raises or the mantissa does not have exactly one leading digit and `d` decimals -/
